@@ -1326,8 +1326,12 @@ func (f *frame) instrModifies(ins ssa.Instruction, keys *modSet, seen map[*ssa.F
 	case *ssa.Store:
 		return f.addrKeys(x.Addr, keys, top)
 	case *ssa.MapUpdate:
-		keys.add("MAP:"+typeKey(x.Map.Type()), nil)
-		return false
+		if dk, vk, _, _, err := f.mapKeys(x.Map.Type()); err == nil {
+			keys.add(dk, nil)
+			keys.add(vk, nil)
+			return false
+		}
+		return true
 	case *ssa.Call:
 		return f.callModifies(x.Common(), keys, seen, depth, top)
 	case *ssa.Defer:
@@ -1414,6 +1418,13 @@ func (f *frame) callModifies(cc *ssa.CallCommon, keys *modSet, seen map[*ssa.Fun
 		switch callee.Name() {
 		case "len", "cap", "append", "min", "max", "print", "println", "panic", "recover":
 			return false
+		case "delete":
+			if len(cc.Args) > 0 {
+				if dk, _, _, _, err := f.mapKeys(cc.Args[0].Type()); err == nil {
+					keys.add(dk, nil)
+					return false
+				}
+			}
 		}
 		return true
 	case *ssa.Function:
